@@ -488,6 +488,7 @@ def run(ctx):
     )
     dispatch_rules(ctx)
     ctx.attempt(beam_conjugate_rule, ctx)
+    ctx.attempt(group_order_rule, ctx)
     extractor_rules(ctx)
     field_e_rule(ctx)
     reaction_rule(ctx)
@@ -634,3 +635,41 @@ def beam_conjugate_rule(ctx):
                 r.ok(f"[{label}] {sname} == strain[{k[0]}] (conjugate of {fname})")
             else:
                 r.fail(fres.qualname, f"{label}|{sname}", fres.file, fres.lineno, "Beam.Result", f"[{label}] Result(\"{sname}\") returns {sv!r} where e_k is component k of the generalised strain vector; its conjugate force {fname} is component {k[0]}, so the result must be e{k[0]}")
+
+
+def group_order_rule(ctx):
+    """R16.14: 'converting between nodal and element values': element values are numbered group after group in the order of
+    Mesh.Get_list_groupElem(); the node-element incidence matrix used for the conversion stacks the groups' blocks in
+    that same order.  Get_connect_n_e is interpreted on a mesh with two main-dimension groups (and a boundary group)
+    whose blocks are tagged."""
+    repo = ctx.repo
+    mesh = repo.cls("EasyFEA.FEM._mesh.Mesh")
+    f = mesh.methods["Get_connect_n_e"]
+    fl = mesh.methods["Get_list_groupElem"]
+    r = ctx.rule("R16.14", "Mesh.Get_connect_n_e stacks the element groups in the order of Get_list_groupElem() (the order element results are numbered in)", min_instances=2)
+
+    class G:
+        _xeval_open = True
+
+        def __init__(self, tag, dim):
+            self.tag, self.dim = tag, dim
+
+        def Get_connect_n_e(self):
+            return ("block", self.tag)
+
+    for tags in (["QUAD4", "TRI3"], ["TRI3", "QUAD4", "TRI6"]):
+        r.instance(fn=f.qualname)
+        groups = {"SEG2": G("SEG2", 1)}
+        for t in tags:
+            groups[t] = G(t, 2)
+        groups["POINT"] = G("POINT", 0)
+        obj = XObj(mesh, {mesh.mangle("__dict_groupElem"): groups, mesh.mangle("__dim"): 2})
+        I = Interp(repo)
+        I.call_hook = lambda fn, args, kwargs: ("stack", [b[1] for b in args[0]]) if isinstance(fn, Opaque) and fn.tag.endswith("hstack") else NotImplemented
+        out = I.call_function(f, [], self_obj=obj)
+        order = [g.tag for g in I.call_function(fl, [], self_obj=obj)]
+        got = out[1] if isinstance(out, tuple) and out[0] == "stack" else [out[1]] if isinstance(out, tuple) else None
+        if got == order:
+            r.ok(f"groups {tags}: blocks stacked as {order}")
+        else:
+            r.fail(f.qualname, f"order:{'+'.join(tags)}", f.file, f.lineno, "Mesh.Get_connect_n_e", f"main-dimension groups {tags}: the incidence blocks are stacked as {got} while the elements (and every element result) are numbered in the order {order}: one group's element values are averaged over the other group's connectivity")
